@@ -113,7 +113,9 @@ Dec(b) == RdGeom(b, 1, 0, TRUE)
 DecLenient(b) == RdGeom(b, 1, 0, FALSE)
 
 \* a decoded value with coordinates mapped back to ids through the table (for comparison with the input)
-IdOf(tab, bytes) == CHOOSE id \in DOMAIN tab : tab[id] = bytes
+\* (0 - no table entry - for bytes that are nobody's coordinate: a stream read out of step, which is then a mismatch and
+\* not an evaluation error)
+IdOf(tab, bytes) == IF \E id \in DOMAIN tab : tab[id] = bytes THEN CHOOSE id \in DOMAIN tab : tab[id] = bytes ELSE 0
 
 \* ---------------- scanner coercions ------------------------------------------------------------------
 \* ScanInto(dest, g): g is a canonical decoded value; result [ok, v] (ok = FALSE: wrong-geometry error)
